@@ -26,6 +26,10 @@ def _join(p, r, T, how, item, other, col="id"):
     return p.call(p.call(r, how, j), "on", _eq(p, _f(p, j, col), _f(p, T[other], col)))
 
 
+def _join_sub(p, r, T, s):
+    return p.call(p.call(r, "join", s), "on", _eq(p, _f(p, s, "id"), _f(p, T["t1"], "id")))
+
+
 def families(dialect):
     """family -> (primes, actions); prime(p, T) -> receiver ref; action(p, r, T) -> ref.  T = dict of table refs."""
     Q = Cls(dialect)
@@ -65,6 +69,11 @@ def families(dialect):
         ("from-t2", lambda p, r, T: p.call(r, "from_", T["t2"])),
         ("from-t3", lambda p, r, T: p.call(r, "from_", T["t3"])),
         ("from-subquery", lambda p, r, T: p.call(r, "from_", sub(p, T, "t2", "a", "s"))),
+        # un-aliased subqueries (fresh objects: the automatic alias sq<n> lands on no shared object, its number must not depend on siblings)
+        ("from-unaliased-subquery", lambda p, r, T: p.call(r, "from_", sub(p, T, "t3", "a"))),
+        ("join-unaliased-subquery", lambda p, r, T: _join_sub(p, r, T, sub(p, T, "t2", "id"))),
+        ("join-unaliased-subquery-2", lambda p, r, T: _join_sub(p, r, T, sub(p, T, "t3", "id"))),
+        ("join-unaliased-subquery-dangling", lambda p, r, T: p.call(r, "join", sub(p, T, "t3", "id"))),
         ("join-t2", lambda p, r, T: _join(p, r, T, "join", "t2", "t1")),
         ("join-t3-on-t1", lambda p, r, T: _join(p, r, T, "join", "t3", "t1")),
         ("join-t3-on-t2", lambda p, r, T: _join(p, r, T, "join", "t3", "t2")),
